@@ -36,4 +36,23 @@ def frac_star_statement : Prop :=
     render (fun _ _ => []) (formatSegs (ofString "%E*f") al t fs).val.1 (formatSegs (ofString "%E*f") al t fs).val.2
       = (if fracStar fs = [] then [48] else fracStar fs)
 
+/-! ## Proofs (helper lemmas in `Cctz/Proofs/WholeRoundTrip.lean` and `Cctz/Proofs/Wr*.lean`) -/
+
+theorem frac_star : frac_star_statement := by
+  intro al t fs h0 _
+  exact Wr.starf_render al t fs h0
+
+/-! hypotheses satisfiable: 0.25 s renders "25", nothing renders "0" -/
+example : (0 : Int) ≤ 250000000000000 ∧ (250000000000000 : Int) < 1000000000000000 ∧
+    (if fracStar 250000000000000 = [] then [48] else fracStar 250000000000000) = ofString "25" ∧
+    (if fracStar 0 = [] then [48] else fracStar 0) = ofString "0" := by decide +kernel
+
+theorem frac_truncated : frac_truncated_statement := by
+  intro n al t fs hn1 hn h0 _
+  exact Wr.Enf_all n al t fs hn1 hn h0
+
+/-! hypotheses satisfiable: 0.999999999999999 s with three digits is "999", not "1000" -/
+example : 1 ≤ 3 ∧ 3 ≤ 15 ∧ (0 : Int) ≤ 999999999999999 ∧ (999999999999999 : Int) < 1000000000000000 ∧
+    fracDigits 3 999999999999999 = ofString "999" := by decide +kernel
+
 end Cctz.C07Whole
